@@ -100,9 +100,11 @@ def run_sessions(run, sessions, label, quiet="2ms", cfg="PoolTrace.cfg", race=Fa
         return any(e.get("ev") == "timeout" for e in evs) and (idx is None or evs[idx].get("ev") == "timeout")
     hung = [(sid, evs) for sid, evs, idx in rejected if is_hang(evs, idx)]
     confirmed = set()
-    if hung and label != "repro":
-        # A watchdog timeout is a verdict only if the same session hangs again, alone, with ten times the budget.
-        sid, evs = hung[0]
+    # A watchdog timeout is a verdict only if the same session hangs again, alone, with ten times the budget
+    # (up to three timed-out sessions are examined; under load several may time out without being stuck).
+    for sid, evs in (hung[:3] if label != "repro" else []):
+        if confirmed:
+            break
         sess = json.loads(json.dumps(by_id[sid]))
         sess["timeout"] = 10 * (sess.get("timeout") or 30)
         # same session id, hence the same seeded release schedule; four attempts, at least two must hang again
@@ -123,8 +125,25 @@ def run_sessions(run, sessions, label, quiet="2ms", cfg="PoolTrace.cfg", race=Fa
         if n_to >= 2:
             confirmed.add(sid)
         else:
-            raise Infra("session %s hit the driver watchdog but did not hang again at least twice in 4 isolated re-runs "
-                        "(not a verdict)" % sid)
+            # not reproduced: the verdict on this session is the one of its re-runs (the same session, executed alone)
+            ok_runs = 0
+            for k in range(4):
+                rp_t = os.path.join(run.scratch, "traces-repro%d.ndjson" % k)
+                evs2 = read_ndjson(rp_t)
+                if any(e.get("ev") == "timeout" for e in evs2):
+                    continue
+                vp = os.path.join(run.scratch, "traces-reprov%d.ndjson" % k)
+                write_ndjson(vp, evs2)
+                _, _, rej2 = validate_traces(run, "PoolTrace.tla", cfg, vp, chunks=1)
+                if rej2:
+                    sid2, e2, i2 = rej2[0]
+                    key, what = describe(sess, e2, i2)
+                    run.violation(key, {"session": sess, "trace": e2, "rejected_event_index": i2, "spec": "PoolTrace.tla"}, what)
+                    break
+                ok_runs += 1
+            run.log("session %s: watchdog timeout under load not reproduced; %d re-run(s) alone completed and were accepted" % (sid, ok_runs))
+            if ok_runs == 0 and not run.violations:
+                raise Infra("session %s hit the driver watchdog and no isolated re-run completed (not a verdict)" % sid)
     for sid, evs, idx in rejected:
         sess = by_id.get(sid)
         if is_hang(evs, idx):
